@@ -42,6 +42,7 @@ type engine struct {
 	immInit   map[*ssa.Global]ssa.Value
 	allocIDs  map[*ssa.Alloc]int
 	lemmasUsed map[string]bool
+	arrInit   map[*ssa.Global]map[int64]*ssa.Const
 }
 
 func loadEngine(repo string, patterns []string) (*engine, error) {
